@@ -5,7 +5,7 @@ C11 driver.
                                             splitNL/lexLine/parseFile, says what the file says)
   accept-asm <cfg> <file> <n> fn*         → ok | bad-…   (decoded object code: instruction order per
                                             symbol and branch targets against the label binding)
-     fn := <sym-hex> <n> (line addr target+1)* <n> (instrIdx label-hex)* <n> (label-hex instrIdx)*
+     fn := <sym-hex> <argsize> <nosplit 0/1> <n> (line addr target+1)* <n> (instrIdx label-hex)* <n> (label-hex instrIdx)*
 -/
 import AvoVerif.Drv.Print
 import AvoVerif.Gen.TextFlags
@@ -70,6 +70,8 @@ structure Ent where
 
 structure AsmFn where
   sym : Txt
+  args : Int
+  nosplit : Bool
   ents : List Ent
   branches : List (Nat × Txt)
   targets : List (Txt × Nat)
@@ -92,10 +94,12 @@ def ltTok : P (Txt × Nat) := fun ts => do
 
 def asmFnTok : P AsmFn := fun ts => do
   let (sym, ts) ← txtTok ts
+  let (args, ts) ← intTok ts
+  let (nosplit, ts) ← boolTok ts
   let (ents, ts) ← listOf entTok ts
   let (brs, ts) ← listOf brTok ts
   let (lts, ts) ← listOf ltTok ts
-  some (⟨sym, ents, brs, lts⟩, ts)
+  some (⟨sym, args, nosplit, ents, brs, lts⟩, ts)
 
 /-- Per function of the printed file: line number of the TEXT line and of every
 instruction line (1-based; one structured line is one text line). -/
@@ -124,18 +128,46 @@ def lookupTxt (k : Txt) : List (Txt × Nat) → Option Nat
 def sameBinding (a b : List (Txt × Nat)) : Bool :=
   a.length == b.length && a.all (fun p => lookupTxt p.1 b == some p.2)
 
+def lookupNat (k : Nat) : List (Nat × Txt) → Option Txt
+  | [] => none
+  | (a, b) :: r => if a == k then some b else lookupNat k r
+
+/-- The assembler threads jumps: a branch whose target is an unconditional
+`JMP label` is encoded with that jump's own target (and a branch into a chain
+that never leaves unconditional jumps with a jump to itself).  `followJmps`
+lists the instruction indices a branch bound to instruction `j` may therefore
+land on, and whether the chain is cyclic. -/
+def followJmps (is : List Instr) (brs : List (Nat × Txt)) (binding : List (Txt × Nat)) : Nat → Nat → List Nat × Bool
+  | 0, _ => ([], true)
+  | fuel + 1, j =>
+    match is[j]?, lookupNat j brs with
+    | some i, some l =>
+      if i.isUncondBranch then
+        match lookupTxt l binding with
+        | some k => let r := followJmps is brs binding fuel k; (j :: r.1, r.2)
+        | none => ([j], false)
+      else ([j], false)
+    | _, _ => ([j], false)
+
 def acceptAsmFn (f : Function) (ln : Nat × List Nat) (a : AsmFn) : Option String :=
   if a.sym != f.name then some "bad-symbol" else
+  -- without a positive argument size the TEXT line has no `-args` and the object says "unknown" (-1)
+  if (if f.args > 0 then a.args != f.args else a.args > 0) then some "bad-object-argsize" else
+  if f.attrs.getLsbD 2 && !a.nosplit then some "bad-object-nosplit" else
   let groups := groupEnts (a.ents.filter (fun e => e.line != ln.1))
   if groups.map (·.1) != ln.2 then some "bad-instruction-sequence" else
   let binding := labelsFrom f.nodes 0
   if !sameBinding binding a.targets then some "bad-label-binding" else
+  let is := instrsOf f.nodes
   firstBad (a.branches.map (fun (i, l) =>
     match groups[i]?, lookupTxt l binding with
-    | some (_, _, g), some j =>
-      match g.filterMap (·.target), groups[j]? with
-      | [t], some (_, addr, _) => if t == addr then none else some s!"bad-branch-target {i}"
-      | _, _ => some s!"bad-branch-decode {i}"
+    | some (_, self, g), some j =>
+      match g.filterMap (·.target) with
+      | [t] =>
+        let ch := followJmps is a.branches binding (is.length + 1) j
+        let addrs := ch.1.filterMap (fun k => groups[k]?.map (·.2.1))
+        if addrs.contains t || (ch.2 && t == self) then none else some s!"bad-branch-target {i}"
+      | _ => some s!"bad-branch-decode {i}"
     | _, _ => some s!"bad-branch-label {i}"))
 
 def acceptAsm (cfg : Config) (f : File) (fns : List AsmFn) : String :=
@@ -161,9 +193,12 @@ def handle : Handler
     let (f, ts) ← fileTok ts
     let (fns, _) ← listOf asmFnTok ts
     some (acceptAsm cfg f fns)
+  -- verdicts measured by the harness with the Go toolchain / binutils
+  | "accept-assembles" :: r :: _ => some (if r == "ok" then "ok" else "bad-assembler-rejects " ++ r)
+  | "accept-decode" :: r :: _ => some (if r == "ok" then "ok" else "bad-decode " ++ r)
   | _ => none
 
 def handlers : List (String × Handler) :=
-  ["print", "accept-print", "accept-asm"].map (·, handle)
+  ["print", "accept-print", "accept-asm", "accept-assembles", "accept-decode"].map (·, handle)
 
 end Avo.Drv.C11
